@@ -1,14 +1,15 @@
 """C05 (see DESIGN.md)."""
 from . import solvercheck, oracles
 from .p_common import TB, PROFILES
+from . import gridgen
 
 
 def check():
     return solvercheck.run(
         "C05", None,
         [dict(profile=PROFILES["teval"], n_quick=300, n_thorough=5000),
-         dict(profile=PROFILES["plain"], n_quick=60, n_thorough=1000)],
+         dict(builder=gridgen.teval_builder, n_quick=240, n_thorough=4000)],
         [oracles.oracle_C05, oracles.oracle_shapes], TB,
-        "profile 'teval' + plain runs over the 4 explicit methods, both directions; each case replayed bit-for-bit on the "
+        "grid-aware placements (inside a step, on a boundary, +-1 ulp, +-1e-12, +-1e-9, several per step) + profile 'teval' + plain runs over the 4 explicit methods, both directions; each case replayed bit-for-bit on the "
         "extracted model; the property's clauses checked on the implementation's results; non-trivial = at least 2 accepted "
         "steps; distinct = distinct case lines")
